@@ -1,4 +1,161 @@
-From Coq Require Import List String.
-From PAFC19 Require Import Syntax Gen Model Proofs.
-Theorem C19_placeholder : True.
-Proof. exact placeholder. Qed.
+(* C19 property theorems: statements only, each closed by `exact`.
+   md5 is a parameter of the general theorems (identifier distinctness is a hypothesis there and is
+   PROVED for the generated step list: C19_generated_ids_distinct).  `steps`, `orm_schema`,
+   `base_schema`, `orm_gaps`, ... are regenerated from /repo on every run (Gen.v). *)
+From Coq Require Import List String Bool.
+From PAFC19 Require Import Syntax Gen Model Proofs Proofs2 Proofs3.
+Import ListNotations.
+Open Scope bool_scope.
+Open Scope list_scope.
+
+(* ---- exactly the missing steps, each once, in order (Migrator.get_steps, Revision.__sub__) ---- *)
+
+Theorem C19_missing_steps : forall (md5 : string -> string) (ss : list step) (k : nat),
+  ids_distinct md5 ss -> revs_distinct md5 ss -> 1 <= k <= List.length ss ->
+  get_steps md5 ss (Some (rev_id md5 (firstn k ss))) = skipn k ss.
+Proof. exact get_steps_prefix. Qed.
+
+Theorem C19_no_revision_all_steps : forall (md5 : string -> string) (ss : list step), get_steps md5 ss None = ss.
+Proof. exact get_steps_none. Qed.
+
+Theorem C19_unrecognised_all_steps : forall (md5 : string -> string) (ss : list step) (rid : string),
+  (forall r, In r (revisions ss) -> rev_id md5 r <> rid) -> get_steps md5 ss (Some rid) = ss.
+Proof. exact get_steps_unknown. Qed.
+
+Theorem C19_generated_ids_distinct : ids_distinct real_md5 steps /\ revs_distinct real_md5 steps /\ steps <> [].
+Proof. exact generated_ids_distinct. Qed.
+
+(* a file stamped with the revision of the first k steps: the open executes exactly the statements of
+   the remaining steps, each once, in order; the session sees the current stamp; no row is touched *)
+Theorem C19_stamped_applies_missing_once : forall (md5 : string -> string) (ss : list step) (k : nat) (c : conn),
+  ids_distinct md5 ss -> revs_distinct md5 ss -> 1 <= k < List.length ss ->
+  d_rev (cur c) = RRow (Some (rev_id md5 (firstn k ss))) ->
+  stmts_of (snd (migrate md5 ss c)) = map fst (List.concat (skipn k ss))
+  /\ d_rev (cur (fst (migrate md5 ss c))) = RRow (Some (rev_id md5 ss))
+  /\ d_data (cur (fst (migrate md5 ss c))) = d_data (cur c).
+Proof. exact migrate_prefix. Qed.
+
+(* ---- a file stamped current: the open changes nothing; fixed point for every later history ---- *)
+
+Theorem C19_idempotent : forall (md5 : string -> string) (ss : list step) (c : conn),
+  ids_distinct md5 ss -> revs_distinct md5 ss -> d_rev (cur c) = RRow (Some (rev_id md5 ss)) ->
+  migrate md5 ss c = (c, [ESelectRev true]).
+Proof. exact migrate_current. Qed.
+
+Theorem C19_fixpoint_once_stamped : forall (md5 : string -> string) (orm : schema) (ss : list step) (h : list (list op)) (d : db),
+  ids_distinct md5 ss -> revs_distinct md5 ss -> d_rev d = RRow (Some (rev_id md5 ss)) ->
+  Forall (fun o => s_trace o = [ESelectRev true] /\ sr (s_open o) = sr d /\ sr (s_end o) = sr d /\ sr (s_disk o) = sr d)
+         (fst (run_history md5 orm ss (File d) h))
+  /\ exists d', snd (run_history md5 orm ss (File d) h) = File d' /\ sr d' = sr d.
+Proof. exact history_current. Qed.
+
+(* ---- "repeated opens reach a fixed point after the first": FULL statement refuted, PARTIAL proved ---- *)
+
+(* full statement, on the generated steps: false for the original schema without revision table *)
+Theorem C19_fixpoint_refuted :
+  exists d : db, ~ (forall o1 o2 f, run_history real_md5 orm_schema steps (File d) [[]; []] = ([o1; o2], f) ->
+                    stmts_of (s_trace o2) = [] /\ sr (s_disk o2) = sr (s_disk o1)).
+Proof. exact fixpoint_refuted. Qed.
+
+(* why, for every step list: without a commit the first open of a file without revision table is rolled
+   back entirely, except for an EMPTY revision table ... *)
+Theorem C19_first_open_rolled_back : forall (md5 : string -> string) (orm : schema) (ss : list step) (d : db) (ops : list op),
+  ss <> [] -> d_rev d = RNoTable -> ~ In OpCommit ops ->
+  snd (run_session md5 orm ss (File d) ops) = File (set_rev REmpty d).
+Proof. exact session_no_table_no_commit. Qed.
+
+(* ... and a file with an empty revision table is never stamped by any history whatsoever (commits
+   included): every open executes every statement of every step again *)
+Theorem C19_empty_table_never_stamped : forall (md5 : string -> string) (orm : schema) (ss : list step) (h : list (list op)) (d : db),
+  ss <> [] -> d_rev d = REmpty ->
+  Forall (fun o => stmts_of (s_trace o) = map fst (List.concat ss)) (fst (run_history md5 orm ss (File d) h))
+  /\ exists d', snd (run_history md5 orm ss (File d) h) = File d' /\ d_rev d' = REmpty.
+Proof. exact history_empty_table. Qed.
+
+Theorem C19_read_only_never_stamps : forall (md5 : string -> string) (orm : schema) (ss : list step) (ops : list op) (h : list (list op)) (d : db),
+  ss <> [] -> d_rev d = RNoTable -> ~ In OpCommit ops ->
+  exists d', snd (run_history md5 orm ss (File d) (ops :: h)) = File d' /\ d_rev d' = REmpty.
+Proof. exact history_read_only_never_stamps. Qed.
+
+(* partial: if the first session commits (file with a revision row, or without revision table), the file
+   is stamped current with the schema the session saw, and every later session is the identity on
+   schema and revision and executes nothing *)
+Theorem C19_fixpoint_partial : forall (md5 : string -> string) (orm : schema) (ss : list step) (d : db) (ops : list op) (h : list (list op)),
+  ids_distinct md5 ss -> revs_distinct md5 ss -> ss <> [] -> d_rev d <> REmpty -> In OpCommit ops ->
+  exists d1, snd (run_session md5 orm ss (File d) ops) = File d1
+    /\ d_rev d1 = RRow (Some (rev_id md5 ss))
+    /\ d_schema d1 = d_schema (s_open (fst (run_session md5 orm ss (File d) ops)))
+    /\ Forall (fun o => s_trace o = [ESelectRev true] /\ sr (s_open o) = sr d1 /\ sr (s_end o) = sr d1 /\ sr (s_disk o) = sr d1)
+              (fst (run_history md5 orm ss (File d1) h))
+    /\ exists d2, snd (run_history md5 orm ss (File d1) h) = File d2 /\ sr d2 = sr d1.
+Proof. exact commit_then_fixpoint. Qed.
+
+(* ---- every earlier revision reaches the current schema (generated steps; finite family) ---- *)
+
+Theorem C19_reaches_current_stamped : forall k : nat, 1 <= k <= List.length steps ->
+  d_schema (cur (fst (opened (stamped_db base_schema k)))) = current_schema base_schema
+  /\ stmts_of (snd (opened (stamped_db base_schema k))) = raw_stmts (skipn k steps)
+  /\ ok_stmts_of (snd (opened (stamped_db base_schema k))) = raw_stmts (skipn k steps).
+Proof. exact reaches_current_stamped. Qed.
+
+(* no stamp (no revision table / empty table / NULL row) at any EARLIER schema: every statement is
+   attempted, exactly those of the missing steps take effect, the session sees the current schema *)
+Theorem C19_reaches_current_unstamped : forall (k : nat) (r : rev), k < List.length steps -> unstamped r ->
+  d_schema (cur (fst (opened (unstamped_db base_schema k r)))) = current_schema base_schema
+  /\ ok_stmts_of (snd (opened (unstamped_db base_schema k r))) = raw_stmts (skipn k steps)
+  /\ stmts_of (snd (opened (unstamped_db base_schema k r))) = raw_stmts steps.
+Proof. exact reaches_current_unstamped. Qed.
+
+(* no stamp at the CURRENT schema (every file made by create_all): "changes nothing" is refuted ... *)
+Theorem C19_unstamped_current_unchanged_refuted :
+  d_schema (cur (fst (opened (mkdb orm_schema RNoTable 0)))) <> orm_schema
+  /\ ok_stmts_of (snd (opened (unstamped_db base_schema n_steps RNoTable))) <> [].
+Proof. exact created_file_changed_by_reopen. Qed.
+
+(* ... partial: nothing the mappers / the current schema need is lost *)
+Theorem C19_unstamped_current_partial :
+  forallb (fun r => covers (d_schema (cur (fst (opened (unstamped_db base_schema n_steps r))))) (current_schema base_schema)
+                    && covers (d_schema (cur (fst (opened (mkdb orm_schema r 0))))) orm_schema) unstamped_revs = true.
+Proof. exact unstamped_current_covers_b. Qed.
+
+(* ---- the migrated schema provides what the current mappers read and write ---- *)
+
+(* partial: all of Base.metadata except the generated list orm_gaps (full statement iff orm_gaps = []) *)
+Theorem C19_reaches_orm_partial : covers (current_schema base_schema) (remove_gaps orm_gaps orm_schema) = true.
+Proof. exact current_covers_orm_but_gaps. Qed.
+
+(* refuted part: every entry of orm_gaps is a mapper column the migrated schema lacks *)
+Theorem C19_reaches_orm_refuted :
+  forallb (fun g => negb (has_col (current_schema base_schema) g) && has_col orm_schema g) orm_gaps = true.
+Proof. exact orm_gaps_real. Qed.
+
+Theorem C19_artifact_reaches_orm_partial :
+  covers (run_steps_schema steps artifact_schema) (remove_gaps artifact_gaps orm_schema) = true \/ artifact_schema = [].
+Proof. exact artifact_covers_orm_but_gaps. Qed.
+
+Theorem C19_artifact_reaches_orm_refuted :
+  forallb (fun g => negb (has_col (run_steps_schema steps artifact_schema) g) && has_col orm_schema g) artifact_gaps = true.
+Proof. exact artifact_gaps_real. Qed.
+
+(* ---- existing fits stay readable: no row, table or column is ever lost by a migration ---- *)
+
+Theorem C19_rows_preserved : forall (md5 : string -> string) (ss : list step) (c : conn),
+  d_data (cur (fst (migrate md5 ss c))) = d_data (cur c) /\ d_data (disk (fst (migrate md5 ss c))) = d_data (disk c).
+Proof. exact migrate_keeps_data. Qed.
+
+Theorem C19_tables_preserved : forall (md5 : string -> string) (ss : list step) (c : conn) (t : string) (cols : list string),
+  lookup t (d_schema (cur c)) = Some cols ->
+  exists cols', lookup t (d_schema (cur (fst (migrate md5 ss c)))) = Some cols' /\ List.length cols <= List.length cols'.
+Proof. exact migrate_keeps_tables. Qed.
+
+Theorem C19_columns_preserved : forall (s s' : schema) (st : stmt) (t : string) (cols : list string),
+  exec s st = Some s' -> lookup t s = Some cols ->
+  exists cols', lookup t s' = Some cols' /\ List.length cols <= List.length cols'
+                /\ forall c, In c cols -> In (renamed st t c) cols'.
+Proof. exact exec_preserves. Qed.
+
+Print Assumptions C19_missing_steps.
+Print Assumptions C19_fixpoint_partial.
+Print Assumptions C19_empty_table_never_stamped.
+Print Assumptions C19_reaches_current_unstamped.
+Print Assumptions C19_fixpoint_refuted.
